@@ -40,8 +40,10 @@ impl State {
         let old_velocity = self.get_velocity();
         let old_position = self.get_position();
         let new_velocity = old_velocity + delta_time * old_acceleration;
-        let new_position = old_position
-            + delta_time * (old_velocity + new_velocity) / Quantity::dimensionless(2.0);
+        //Halve each velocity before adding them: their sum can exceed the range of an f32 even when the
+        //average velocity, and the new position, do not.
+        let two = Quantity::dimensionless(2.0);
+        let new_position = old_position + delta_time * (old_velocity / two + new_velocity / two);
         self.position = new_position.value;
         self.velocity = new_velocity.value;
     }
